@@ -34,6 +34,10 @@ CHECKS = {
          "Exploration: ~400k random (table, sequence) cases (quick) plus all sequences of <= 3 operand groups over a fixed table with every operator kind; S-expressions must equal the shunting-yard's and pass an independent use-once/in-order predicate.",
          "Trusts the 60-line shunting-yard in harness/pv/src/c13.rs as the reading of the statement's binding powers.",
          "DESIGN.md section 4, C13"),
+ "C14": ("three-way differential (checked-in generated parser / grammar file through the current optimizer + VM / parser derived at harness build time) on mutated real grammars, spelled generated grammars, token soup and fragments x every meta-grammar rule",
+         "Exploration: ~120k (text, start rule) cases (quick); token streams or error position + rule-name sets must be pairwise identical between the three engines.",
+         "The rule-name table in harness/pv/src/c14.rs must list the meta-grammar's rules (checked at run time against grammar.pest; a mismatch is reported). A change that needs regenerating grammar.rs shows up as a disagreement, which is the point.",
+         "DESIGN.md section 4, C14"),
  "C15": ("metamorphic comparison of the same generated parse with error detail off and on, plus validity/renderability predicates on the recorded attempts",
          "Exploration: ~200k generated grammars (quick) x rules x inputs, ~2.5M parse pairs; outcome equality (tokens or error position/line-col/rule sets), no panic with detail on, max_position on a char boundary in range, help message renders.",
          "VM back-end; process-global switch handled by single-threaded worker processes. Says nothing about the *content* of the help message beyond renderability.",
